@@ -24,7 +24,7 @@ EXTENDS Integers, Sequences, TLC, FiniteSets
 CONSTANTS Inputs,      \* set of [toks, incode, open, src] records
           DevP2
 DevP2Intended == [SlotsBlind |-> FALSE, BlockIgnoresEOF |-> FALSE, ObjectNoProgress |-> FALSE, IllegalSteppedOver |-> FALSE, OneTokenAhead |-> FALSE]
-DevP2AsCoded  == [BlockIgnoresEOF |-> TRUE, ObjectNoProgress |-> TRUE, IllegalSteppedOver |-> FALSE, OneTokenAhead |-> FALSE]   \* the two pinned loops
+DevP2AsCoded  == [SlotsBlind |-> FALSE, BlockIgnoresEOF |-> TRUE, ObjectNoProgress |-> TRUE, IllegalSteppedOver |-> FALSE, OneTokenAhead |-> FALSE]   \* the two pinned loops
 \* OneTokenAhead: after the ")" of @component the pinned parser looked one token ahead: white space that a comment
 \* splits into two tokens (WS WS) hid the slots, and a single white-space token was swallowed when no slot followed
 \* (repaired: the parser looks past every white-space token and consumes them only when a slot follows)
@@ -36,7 +36,7 @@ DevP2OneAhead == [SlotsBlind |-> FALSE, BlockIgnoresEOF |-> FALSE, ObjectNoProgr
 \* @end") and never looked for the @end of the component: inputs like @component("c")@slot@else@if(true) were accepted
 \* (repaired: both @end tokens are required)
 DevP2Blind    == [SlotsBlind |-> TRUE, BlockIgnoresEOF |-> FALSE, ObjectNoProgress |-> FALSE, IllegalSteppedOver |-> FALSE, OneTokenAhead |-> FALSE]
-DevP2Illegal  == [BlockIgnoresEOF |-> FALSE, ObjectNoProgress |-> FALSE, IllegalSteppedOver |-> TRUE, OneTokenAhead |-> FALSE]
+DevP2Illegal  == [SlotsBlind |-> FALSE, BlockIgnoresEOF |-> FALSE, ObjectNoProgress |-> FALSE, IllegalSteppedOver |-> TRUE, OneTokenAhead |-> FALSE]
 
 (* --fair algorithm TwParser
 variables inp \in Inputs, toks = inp.toks, i = 1, errs = <<>>, nilp = FALSE,
